@@ -98,6 +98,11 @@ func init() {
 						}
 					}()
 					cfg := strings.ReplaceAll(string(tmpl), "@PREDS@", `"`+strings.Join(g, `", "`)+`"`)
+					na, nl := "3", "3"
+					if c.tier == "thorough" {
+						na, nl = "4", "4"
+					}
+					cfg = strings.ReplaceAll(strings.ReplaceAll(cfg, "@NA@", na), "@NL@", nl)
 					res[i] = c.mcHolds("Builtins", cfg, tlcOpts{workers: 4})
 				}(i, g)
 			}
